@@ -14,16 +14,19 @@ Lemma tie_uls off n bs ov :
   uls off n bs ov = pyrange (Z.to_nat n + 1) (gen_range_start off n bs ov) (gen_range_stop off n bs ov) (gen_range_step off n bs ov).
 Proof. unfold uls, gen_range_start, gen_range_stop, gen_range_step. reflexivity. Qed.
 
-(* the four corners of a block along one axis, with lo = off and hi = off + n *)
+(* the windows of a block along one axis, with lo = off and hi = off + n: offset and length of the overlapping (input) and of the
+   non-overlapping (output) processing-grid window, as the source builds them (resolved back to the loop variable, the block shape, the
+   overlap and the processing window) *)
 Lemma tie_ablk off n bs ov u :
-  let br := gen_br u bs ov off (off + n) in
-  mk_ablk off n bs ov u = {| in_lo := gen_in_lo u bs ov off (off + n) br; in_hi := gen_in_hi u bs ov off (off + n) br;
-                             out_lo := gen_out_lo u bs ov off (off + n) br; out_hi := gen_out_hi u bs ov off (off + n) br |}.
-Proof. cbv zeta. unfold mk_ablk, gen_br, gen_in_lo, gen_in_hi, gen_out_lo, gen_out_hi. reflexivity. Qed.
+  let b := mk_ablk off n bs ov u in
+  gen_in_lo u bs ov off (off + n) = in_lo b /\ gen_in_lo u bs ov off (off + n) + gen_in_len u bs ov off (off + n) = in_hi b /\
+  gen_out_lo u bs ov off (off + n) = out_lo b /\ gen_out_lo u bs ov off (off + n) + gen_out_len u bs ov off (off + n) = out_hi b /\
+  gen_outer_hi_term u bs ov off (off + n) = in_hi b.
+Proof. cbv zeta. unfold mk_ablk, gen_in_lo, gen_in_len, gen_out_lo, gen_out_len, gen_outer_hi_term. cbn [in_lo in_hi out_lo out_hi]. repeat split; lia. Qed.
 
 Lemma tie_structure :
-  gen_rows_outer_bands_outermost = true /\ gen_window_corners_ok = true /\ gen_windows_from_corners_ok = true /\ gen_outer_ok = true /\
-  gen_fuse_passes_overlap = true /\ gen_compare_no_overlap = true.
+  gen_rows_outer_bands_outermost = true /\ gen_block_pair_fields_ok = true /\ gen_outer_ok = true /\ gen_block_guard_ok = true /\
+  gen_other_in_ok = true /\ gen_other_out_ok = true /\ gen_fuse_passes_overlap = true /\ gen_compare_no_overlap = true.
 Proof. repeat split; reflexivity. Qed.
 
 Lemma tie_overlap k : gen_overlap_for_kernel k = overlap_for_kernel k.
@@ -39,10 +42,8 @@ Qed.
 
 (* RasterArray.bounded_window_slices, one axis: the bounded window and the slice into the window-shaped array (Grid.Window.bounded_axis) *)
 Lemma tie_bounded n off len :
-  let bul := gen_bounded_ul n off len in let bbr := gen_bounded_br n off len bul in
-  let st := gen_bounded_start n off len bul bbr in let sp := gen_bounded_stop n off len bul bbr st in
-  bounded_axis n off len = ((bul, bbr), (st, sp)) /\ gen_bounded_results_ok = true.
-Proof. cbv zeta. unfold bounded_axis, gen_bounded_ul, gen_bounded_br, gen_bounded_start, gen_bounded_stop. split; reflexivity. Qed.
+  bounded_axis n off len = ((gen_bounded_ul n off len, gen_bounded_br n off len), (gen_bounded_start n off len, gen_bounded_stop n off len)).
+Proof. unfold bounded_axis, gen_bounded_ul, gen_bounded_br, gen_bounded_start, gen_bounded_stop. reflexivity. Qed.
 
 (* parameter image layout (Grid.Layout): band index, labels, validator *)
 From HV Require Import Grid.Layout.
@@ -65,11 +66,12 @@ Proof. reflexivity. Qed.
 Theorem blocks_tied off n bs ov u :
   Blocks.translation_failed = false /\
   uls off n bs ov = pyrange (Z.to_nat n + 1) (gen_range_start off n bs ov) (gen_range_stop off n bs ov) (gen_range_step off n bs ov) /\
-  (let br := gen_br u bs ov off (off + n) in
-   mk_ablk off n bs ov u = {| in_lo := gen_in_lo u bs ov off (off + n) br; in_hi := gen_in_hi u bs ov off (off + n) br;
-                              out_lo := gen_out_lo u bs ov off (off + n) br; out_hi := gen_out_hi u bs ov off (off + n) br |}) /\
-  (gen_rows_outer_bands_outermost = true /\ gen_window_corners_ok = true /\ gen_windows_from_corners_ok = true /\ gen_outer_ok = true /\
-   gen_fuse_passes_overlap = true /\ gen_compare_no_overlap = true).
+  (let b := mk_ablk off n bs ov u in
+   gen_in_lo u bs ov off (off + n) = in_lo b /\ gen_in_lo u bs ov off (off + n) + gen_in_len u bs ov off (off + n) = in_hi b /\
+   gen_out_lo u bs ov off (off + n) = out_lo b /\ gen_out_lo u bs ov off (off + n) + gen_out_len u bs ov off (off + n) = out_hi b /\
+   gen_outer_hi_term u bs ov off (off + n) = in_hi b) /\
+  (gen_rows_outer_bands_outermost = true /\ gen_block_pair_fields_ok = true /\ gen_outer_ok = true /\ gen_block_guard_ok = true /\
+   gen_other_in_ok = true /\ gen_other_out_ok = true /\ gen_fuse_passes_overlap = true /\ gen_compare_no_overlap = true).
 Proof. split; [exact blocks_translated|]. split; [apply tie_uls|]. split; [apply tie_ablk|apply tie_structure]. Qed.
 
 (* utils.same_orientation_crs and the origin of the corrected profile (Grid.ProcGrid) *)
